@@ -89,7 +89,10 @@ AppLen(c) == IF c.app >= 0 THEN c.app ELSE 0
 \*    (InterestNameField: ValueError "unnecessary ParametersSha256DigestComponent")
 \*  - a signature shorter than the reserved space when the reserved length needs a 3-byte L
 \*    (SignatureValueField.calculate_signature: ValueError "Long signature with flexible length")
-RefusesName(c) == IsInterest(c) /\ ((~NeedDigest(c) /\ PdIdx(c.name) # {}) \/ Cardinality(PdIdx(c.name)) > 1)
+\*  - a caller-supplied params-digest placeholder whose value is not 32 bytes: no Interest with that name can be
+\*    well-formed with a correct digest, so the only acceptable outcome is a refusal
+BadPd(c) == \E i \in PdIdx(c.name) : c.name[i].l # 32
+RefusesName(c) == IsInterest(c) /\ ((~NeedDigest(c) /\ PdIdx(c.name) # {}) \/ Cardinality(PdIdx(c.name)) > 1 \/ BadPd(c))
 RefusesShrink(c) == Signed(c) /\ c.sg.a < c.sg.r /\ c.sg.r >= 253
 Refuses(c) == RefusesName(c) \/ RefusesShrink(c)
 
